@@ -121,7 +121,120 @@ def consts():
           % (m.group(1), vals['FIX8_MAX_FLD_LENGTH'], vals['FIX8_MAX_MSG_LENGTH'], vals['FIX8_DEFAULT_PRECISION']))
 
 
-ALL = dict(consts=consts, itoa_table=itoa_table, mon_days=mon_days, tables_utest=tables_utest)
+FT_KIND = {  # FieldTrait::FieldType name -> model kind
+    'ft_int': 'int', 'ft_Length': 'length', 'ft_TagNum': 'int', 'ft_SeqNum': 'int', 'ft_NumInGroup': 'int', 'ft_DayOfMonth': 'int',
+    'ft_char': 'char', 'ft_Boolean': 'bool',
+    'ft_float': 'float', 'ft_Qty': 'float', 'ft_Price': 'float', 'ft_PriceOffset': 'float', 'ft_Amt': 'float', 'ft_Percentage': 'float',
+    'ft_string': 'string', 'ft_MultipleCharValue': 'string', 'ft_MultipleStringValue': 'string', 'ft_Country': 'string', 'ft_Currency': 'string',
+    'ft_Exchange': 'string', 'ft_MonthYear': 'monthYear', 'ft_UTCTimestamp': 'timestamp', 'ft_UTCTimeOnly': 'timeOnly', 'ft_UTCDateOnly': 'dateOnly',
+    'ft_LocalMktDate': 'dateOnly', 'ft_TZTimeOnly': 'other', 'ft_TZTimestamp': 'other', 'ft_data': 'data', 'ft_XMLData': 'data',
+    'ft_pattern': 'string', 'ft_Tenor': 'string', 'ft_Reserved100Plus': 'string', 'ft_Reserved1000Plus': 'string', 'ft_Reserved4000Plus': 'string',
+    'ft_Language': 'string', 'ft_untyped': 'other'}
+
+
+def field_type_enum():
+    s = _src('include/fix8/traits.hpp')
+    m = re.search(r'enum FieldType\s*\{(.*?)\};', s, re.S)
+    if not m:
+        raise FactError('enum FieldType not found in include/fix8/traits.hpp')
+    names, code = {}, 0
+    for e in m.group(1).split(','):
+        e = re.sub(r'//.*', '', e).strip()
+        if not e:
+            continue
+        if '=' in e:
+            n, v = [x.strip() for x in e.split('=')]
+            names[n] = names[v]
+            code = names[v] + 1
+        else:
+            names[e] = code
+            code += 1
+    return names
+
+
+def schema_dump(harness='codec'):
+    exe = vlib.build_harness(harness, need_schema=True)
+    rc, o = vlib.sh([exe, 'dump'], env=vlib.ENV_RUN, timeout=120)
+    if rc:
+        raise FactError('codec dump failed: ' + o[-500:])
+    return o
+
+
+def schema_utest():
+    """the FIX42UTEST metadata as data: field table, header/trailer/message/group trait lists"""
+    names = field_type_enum()
+    code_kind = {}
+    for n, c in names.items():
+        if n.startswith('ft_end'):
+            continue
+        if n not in FT_KIND:
+            raise FactError('unknown FieldType %s' % n)
+        code_kind[c] = FT_KIND[n]
+    o = schema_dump()
+    groups = []        # list of trait lists
+
+    def parse_traits(words):
+        return [tuple(int(x) for x in w.split(':')) for w in words]
+
+    lines = [l for l in o.split('\n') if l.strip()]
+    pos = [0]
+    fields, beginstr, header, trailer, msgs = [], '', None, None, []
+
+    def block(first_traits):
+        """after a trait line: nested `group d tag ...` blocks until `end d`; returns traits with sub indices"""
+        subs = {}
+        while True:
+            w = lines[pos[0]].split()
+            pos[0] += 1
+            if w[0] == 'end':
+                break
+            if w[0] == 'nogroup':
+                continue
+            if w[0] != 'group':
+                raise FactError('unexpected dump line ' + ' '.join(w)[:80])
+            tag = int(w[2])
+            tr = block(parse_traits(w[3:]))
+            groups.append(tr)
+            subs[tag] = len(groups) - 1
+        return [(t, ft, p, fl, subs.get(t, 0)) for (t, ft, p, fl) in first_traits]
+
+    while pos[0] < len(lines):
+        w = lines[pos[0]].split()
+        pos[0] += 1
+        if w[0] == 'fields':
+            fields = [int(x) for x in w[1:]]
+        elif w[0] == 'beginstr':
+            beginstr = w[1]
+        elif w[0] == 'preamble_sz':
+            preamble = int(w[1])
+        elif w[0] == 'header':
+            header = block(parse_traits(w[1:]))
+        elif w[0] == 'trailer':
+            trailer = block(parse_traits(w[1:]))
+        elif w[0] == 'msg':
+            msgs.append((bytes.fromhex(w[1]), block(parse_traits(w[2:]))))
+        else:
+            raise FactError('unexpected dump line ' + ' '.join(w)[:80])
+    if header is None or trailer is None or not msgs:
+        raise FactError('schema dump incomplete')
+
+    def tl(tr):
+        return '[' + ', '.join('⟨%d, %d, %d, %d, %d⟩' % t for t in tr) + ']'
+    body = 'structure RawTrait where\n  tag : Nat\n  ftype : Nat\n  pos : Nat\n  flags : Nat\n  sub : Nat\n  deriving Repr, DecidableEq\n\n'
+    body += '/-- FieldTrait::FieldType code -> value kind (0 int, 1 length, 2 char, 3 bool, 4 float, 5 string, 6 monthYear, 7 timestamp, 8 timeOnly, 9 dateOnly, 10 data, 11 other) -/\n'
+    kinds = ['int', 'length', 'char', 'bool', 'float', 'string', 'monthYear', 'timestamp', 'timeOnly', 'dateOnly', 'data', 'other']
+    body += 'def ftypeKind : List (Nat × Nat) := [%s]\n\n' % ', '.join('(%d, %d)' % (c, kinds.index(k)) for c, k in sorted(code_kind.items()))
+    body += 'def utestFieldTable : List Nat := [%s]\n\n' % ', '.join(map(str, fields))
+    body += 'def utestBeginStr : List Nat := [%s]\n\n' % ', '.join(str(b) for b in bytes.fromhex(beginstr))
+    body += 'def utestPreambleSz : Nat := %d\n\n' % preamble
+    body += 'def utestHeader : List RawTrait := %s\n\ndef utestTrailer : List RawTrait := %s\n\n' % (tl(header), tl(trailer))
+    body += 'def utestGroups : List (List RawTrait) := [\n%s]\n\n' % ',\n'.join('  ' + tl(g) for g in groups)
+    body += 'def utestMsgs : List (List Nat × List RawTrait) := [\n%s]\n' % ',\n'.join('  ([%s], %s)' % (', '.join(str(b) for b in k), tl(tr)) for k, tr in msgs)
+    _emit('SchemaUTEST', body)
+    return dict(fields=fields, header=header, trailer=trailer, msgs=msgs, groups=groups, code_kind=code_kind, beginstr=bytes.fromhex(beginstr))
+
+
+ALL = dict(schema_utest=schema_utest, consts=consts, itoa_table=itoa_table, mon_days=mon_days, tables_utest=tables_utest)
 
 
 def generate(names):
